@@ -560,6 +560,23 @@ def container_lib(s: "Sel") -> Dict[str, Any]:
     return dict(name="KSLIB", long_name="second container", layers=[lib])
 
 
+def container_x(s: "Sel") -> Dict[str, Any]:
+    """Third container: layers that inherit across containers (PARENT-REF with DOCREF): an ECU variant from the base variant of
+    container KS, and a base variant from the shared data of container KSLIB and the protocol of KS."""
+    ecu2 = dict(type="ECU-VARIANT", name="ksecu2", long_name="ecu variant in a container of its own",
+                parents=[dict(layer=B, docref="KS", doctype="CONTAINER")],
+                dops=[dict(name="x_u8", dct=std(8))],
+                msgs=[dict(kind="REQUEST", name="x_rq", params=[cc("sid", 0x32, 0), dict(t="VALUE", name="xv", dop="x_u8", byte=1)]),
+                      dict(kind="POS-RESPONSE", name="x_pr", params=[cc("sid", 0x72, 0), dict(t="VALUE", name="xr", dop="u8", snref=True, byte=1)])],
+                svcs=[dict(name="svc_x", request="x_rq", pos=["x_pr"])])
+    base2 = dict(type="BASE-VARIANT", name="ksbase2", long_name="base variant in a container of its own",
+                 parents=[dict(layer="kslib", docref="KSLIB", doctype="CONTAINER"), dict(layer="ksproto", docref="KS", doctype="CONTAINER")],
+                 msgs=[dict(kind="REQUEST", name="y_rq", params=[cc("sid", 0x33, 0), dict(t="VALUE", name="yv", dop="@kslib.lib_u8", docref="KSLIB", doctype="CONTAINER", byte=1)])],
+                 svcs=[dict(name="svc_y", request="y_rq")])
+    return dict(name="KSX", long_name="container of layers with parents in other containers", layers=[base2, ecu2],
+                foreign_layer_types={B: "BASE-VARIANT", "kslib": "ECU-SHARED-DATA", "ksproto": "PROTOCOL"})
+
+
 def subset(s: "Sel") -> Dict[str, Any]:
     cplx: Dict[str, Any] = dict(name="cp_complex", long_name="complex comparam", cptype="STANDARD", param_class="UNIQUE_ID", usage="ECU-COMM",
                                 subs=[dict(name="sub1", dop="cs_u32", default="1", param_class="UNIQUE_ID"),
@@ -729,12 +746,16 @@ def finish_c(xml: str, s: "Sel") -> str:
 def files(off: Iterable[str] = ()) -> Dict[str, str]:
     """{file name: XML text} of the kitchen-sink database without the features in `off`."""
     s = Sel(off)
-    return {
+    out = {
         "KS.odx-d": finish_ks(container(container_ks(s)), s),
         "KSLIB.odx-d": container(container_lib(s)),
         "KSCS.odx-cs": finish_cs(comparam_subset(subset(s)), s),
         "KSC.odx-c": finish_c(comparam_spec(spec(s)), s),
     }
+    if s.on("cross_container_parent", "ParentRef.layer_ref<layer of another container>"):
+        # (the documents of the parents come first here; the member-order part of C11 enumerates all other orders)
+        out["KSX.odx-d"] = re.sub(r'ID-REF="[^".]+\.@', 'ID-REF="', container(container_x(s)))
+    return out
 
 
 def aux_files() -> Dict[str, bytes]:
